@@ -186,6 +186,60 @@ fn oracle_c17_arrow_and_parquet_round_trip() {
     }
 }
 
+
+/// arrays that are contiguous but not in row-major (standard) layout, and non-contiguous views turned into arrays
+fn odd_layouts(shape: (usize, usize, usize)) -> Vec<(&'static str, Array3<f64>)> {
+    use ndarray::ShapeBuilder;
+    let (a, b, c) = shape;
+    let fortran = Array3::from_shape_fn((a, b, c).f(), |(i, j, k)| val64(i, j, k));
+    let permuted = Array3::from_shape_fn((b, a, c), |(j, i, k)| val64(i, j, k)).permuted_axes([1, 0, 2]);
+    let reversed = { let mut x = Array3::from_shape_fn((a, b, c), |(i, j, k)| val64(i, b - 1 - j, k)); x.invert_axis(ndarray::Axis(1)); x };
+    vec![("fortran order", fortran), ("permuted axes", permuted), ("inverted axis", reversed)]
+}
+
+/// The save functions take any Array3: the memory layout must not matter.
+#[test]
+fn oracle_c17_memory_layout_does_not_matter() {
+    for shape in [(2usize, 3usize, 2usize), (3, 2, 4), (1, 5, 3), (4, 1, 1)] {
+        for (what, arr) in odd_layouts(shape) {
+            assert_eq!(arr.dim(), shape);
+            let (_d, p) = tmp("csv");
+            save_csv(&arr, &p).unwrap();
+            check_csv(&format!("save_csv ({what})"), shape, &|c, o, j| val64(c, o, j), &p, |s| s.parse::<f64>().ok(), same64);
+            let (_d1, p1) = tmp("arrow");
+            save_arrow(&arr, &p1).unwrap();
+            let (f, b) = read_arrow(&p1);
+            check_table(&format!("save_arrow ({what})"), "chain", "observation", shape, &|c, o, j| val64(c, o, j), f, b);
+            let (_d2, p2) = tmp("parquet");
+            save_parquet(&arr, &p2).unwrap();
+            let (f, b) = read_parquet(&p2);
+            check_table(&format!("save_parquet ({what})"), "chain", "observation", shape, &|c, o, j| val64(c, o, j), f, b);
+        }
+    }
+}
+
+/// Tensor entry points on an f64 backend: either an error, or exactly the stored f64 values.
+#[test]
+fn oracle_c17_f64_tensors_are_refused_or_exact() {
+    type B64 = NdArray<f64>;
+    let vals = [0.1f64 + 0.2, 16777217.0, 1e-50, -1e300, f64::MIN_POSITIVE, -0.0, 1.0 / 3.0, 5e-324, f64::MAX, 2.5, f64::NAN, f64::INFINITY];
+    for shape in [(2usize, 3usize, 2usize), (1, 2, 1), (3, 1, 4)] {
+        let (na, nb, nd) = shape;
+        let cell = move |a: usize, b: usize, j: usize| vals[(5 * a + 3 * b + j) % 12];
+        let flat: Vec<f64> = (0..na * nb * nd).map(|i| cell(i / (nb * nd), (i / nd) % nb, i % nd)).collect();
+        let t = || Tensor::<B64, 3>::from_data(TensorData::new(flat.clone(), [na, nb, nd]), &Default::default());
+        let (_d, p) = tmp("csv");
+        if save_csv_tensor(t(), &p).is_ok() {
+            check_csv("save_csv_tensor (f64 backend)", shape, &cell, &p, |s| s.parse::<f64>().ok(), same64);
+        }
+        let (_d2, q) = tmp("parquet");
+        if save_parquet_tensor::<B64, _, f64>(&t(), &q).is_ok() {
+            let (f, b) = read_parquet(&q);
+            check_table("save_parquet_tensor (f64 backend)", "observation", "chain", shape, &cell, f, b);
+        }
+    }
+}
+
 /// A path that cannot be written yields an error, not a panic or a partial success.
 #[test]
 fn oracle_c17_unwritable_path_is_an_error() {
